@@ -57,8 +57,8 @@ def run(chk, tier):
             want = 'false (unlimited)'
         elif d == [('discr(max_rounds)', 1)]:
             seen.add('some')
-            okv = bool(re.fullmatch(r'Gt\(self\.round\.0, Sub\(call:NonZero::get\(max_rounds#Some\.0\.0\), 1\)\)|'
-                                    r'Ge\(self\.round\.0, call:NonZero::get\(max_rounds#Some\.0\.0\)\)', val))
+            okv = bool(re.fullmatch(r'Gt\(self\.round\.0, Sub\(call:NonZero::get\(field:0\(max_rounds\)\.0\), 1\)\)|'
+                                    r'Ge\(self\.round\.0, call:NonZero::get\(field:0\(max_rounds\)\.0\)\)', val))
             want = 'round > max_rounds − 1'
         else:
             okv, want = False, 'a decision on max_rounds only'
@@ -86,7 +86,7 @@ def run(chk, tier):
                          key='R1|run|ok-exit')
         else:
             # error exits must carry the error of send_request / recv_response
-            if re.search(r'unwrap_err\(call:Strategy::(send_request|recv_response)', val):
+            if re.search(r'(unwrap_err|field:0)\(call:Strategy::(send_request|recv_response)', val):
                 chk.ok('R1', 'run:err-exit%d' % i, val[:80])
             else:
                 chk.fail('R1', 'run:err-exit%d' % i, fn_loc(fr), 'Strategy::run returns %s' % val[:100], key='R1|run|err-exit')
